@@ -30,6 +30,7 @@ def stop_scripts(rnd, n_extra):
             s2 = json.loads(json.dumps(base))
             s2["id"] = "main-" + base["id"]
             s2["viaRun"] = True
+            s2["stopWithInt"] = name == "refusing"      # SIGINT for one upstream state, SIGTERM for the others
             if load == "open-chunk":
                 s2["gens"][0]["clients"][0]["keepOpen"] = True
                 s2["gens"][0]["inputFlushMs"] = 400
